@@ -15,6 +15,7 @@ type HarnessSpec struct {
 	Func      string   `json:"func"`
 	Sched     bool     `json:"sched,omitempty"`
 	Preempt   [2]int   `json:"preempt,omitempty"` // quick, thorough
+	SchedFilter string `json:"sched_filter,omitempty"`
 	MapOrder  bool     `json:"maporder,omitempty"`
 	LogEvents bool     `json:"events,omitempty"`
 	Budget    int64    `json:"budget,omitempty"`
@@ -150,6 +151,7 @@ func explore(p *pool, specs []HarnessSpec, cfg exploreCfg) map[string]*harnessRe
 					Budget:          j.spec.Budget,
 					SchedExplore:    j.spec.Sched,
 					PreemptBudget:   j.spec.Preempt[cfg.tier],
+					SchedFilter:     j.spec.SchedFilter,
 					MapOrderExplore: j.spec.MapOrder,
 					LogEvents:       j.spec.LogEvents,
 					Concrete:        cfg.concrete,
